@@ -119,7 +119,7 @@ def roundAtStochastic (x : RF) (p : Option Nat) (n : Int) (emin : Option Int) (r
   | .ok (xr, _) =>
     let (_, lost) := xr.split n
     let randRm : RM :=
-      if lost.c = 0 then .rtz
+      if lost.c = 0 then (if xr.abs.gt x.abs then .raz else .rtz)
       else
         let off := lost.exp - (nRand + 1)
         let lostC : Nat := if off > 0 then lost.c * 2 ^ off.toNat
